@@ -574,6 +574,10 @@ class Engine:
             result = fr.yielded if is_gen else r.v
         except PyRaise as e:
             raised = e
+        if raised is None and isinstance(result, SV) and isinstance(result.ty, TOpt) and c.returns == result.ty.elem:
+            so = sort(result.ty)
+            self.oblige("result_not_none", so.is_some(result.t), node.lineno, "the function returns None")
+            result = SV(so.val(result.t), c.returns)
         # ghost frame: a ghost variable the contract does not list under modifies_ghost is unchanged on every exit
         entry_ghost = self.old_stack[-1][2]
         for g in sorted(self.ghostv):
